@@ -230,13 +230,21 @@ pub fn run_batch<H: Harness>(h: &H, cfg: &BatchCfg) -> BatchResult<H::Sc> {
             files.sort();
             for f in files {
                 if f.extension().map(|e| e == "json").unwrap_or(false) {
-                    match std::fs::read_to_string(&f)
+                    let txt = std::fs::read_to_string(&f).unwrap_or_default();
+                    // files written by another harness of the same property are not ours
+                    let harness = serde_json::from_str::<Value>(&txt)
                         .ok()
-                        .and_then(|s| serde_json::from_str::<ReplayFile<H::Sc>>(&s).ok())
-                    {
-                        Some(rf) => pre.push((rf.scenario, true)),
-                        None => {
+                        .and_then(|v| v["harness"].as_str().map(|s| s.to_string()));
+                    if harness.as_deref() != Some(h.name()) {
+                        if harness.is_none() {
                             *herr.lock().unwrap() = Some(format!("cannot read corpus file {}", f.display()));
+                        }
+                        continue;
+                    }
+                    match serde_json::from_str::<ReplayFile<H::Sc>>(&txt) {
+                        Ok(rf) => pre.push((rf.scenario, true)),
+                        Err(e) => {
+                            *herr.lock().unwrap() = Some(format!("cannot read corpus file {}: {e}", f.display()));
                         }
                     }
                 }
